@@ -63,10 +63,157 @@ def check_size_recovery(run, E):
         yield ck
 
 
+DU = 'rsatoolbox.util.descriptor_utils.'
+
+
+def _in_value(E, x, value, case):
+    """x (z3 V term) is one of the requested values: x == value, or x == value[i] for some i"""
+    if case == 'scalar':
+        return x == E.toV(value)
+    i = z3.Int(fresh_name('vi'))
+    return z3.Exists([i], z3.And(i >= 0, i < value.zlen(), x == E.toV(E.seq_elem(value, i))))
+
+
+def check_selection_helpers(run, E):
+    """K6 / K7: bool_index, num_index, extract_dict, subset_descriptor -- for ALL descriptor columns (hashable scalars,
+    duplicates allowed), all value lists / scalars and all index sequences"""
+    E.inline |= {DU + 'bool_index'}       # num_index is verified with the body of bool_index (itself under contract above)
+    for fn in ('bool_index', 'num_index'):
+        for case in ('scalar', 'list'):
+            ck = FuncCheck(E, run, 'C10', DU + fn, f'value={case}')
+
+            def mk(E, case=case):
+                desc = E.sym_list('desc', etag='scalar')
+                value = E.sym_list('value', etag='scalar') if case == 'list' else E.sym_val('value', tag='scalar')
+                return [desc, value], {}, []
+
+            def post(ck, E, args, kw, p, fn=fn, case=case):
+                desc, value = args
+                n = desc.zlen()
+                res = p.value
+                ok = isinstance(res, SeqV)
+                ck.ensure('post/returns-a-1d-array', z3.BoolVal(ok), structure=True, note=repr(res))
+                if not ok:
+                    return
+                t = z3.Int(fresh_name('t'))
+                if fn == 'bool_index':
+                    ck.ensure('post/one-flag-per-entry', res.zlen() == n)
+                    flag = E._zb(E.truth(E.seq_elem(res, t)))
+                    ck.ensure('post/flag-is-set-exactly-where-the-descriptor-has-a-requested-value',
+                              z3.Implies(z3.And(t >= 0, t < n), flag == _in_value(E, E.toV(E.seq_elem(desc, t)), value, case)))
+                else:
+                    L = res.zlen()
+                    st = E.as_int(E.seq_elem(res, t))
+                    in_t = z3.And(t >= 0, t < L)
+                    ck.ensure('post/indices-are-entries-with-a-requested-value',
+                              z3.Implies(in_t, z3.And(st >= 0, st < n, _in_value(E, E.toV(E.seq_elem(desc, st)), value, case))))
+                    j = z3.Int(fresh_name('j'))
+                    pj = res.inv(j) if res.inv is not None else None
+                    ck.ensure('post/every-entry-with-a-requested-value-is-listed', z3.BoolVal(False) if pj is None else z3.Implies(
+                        z3.And(j >= 0, j < n, _in_value(E, E.toV(E.seq_elem(desc, j)), value, case)),
+                        z3.And(pj >= 0, pj < L, E.as_int(E.seq_elem(res, pj)) == j)))
+                    t2 = z3.Int(fresh_name('t'))
+                    ck.ensure('post/each-once-in-original-order',
+                              z3.Implies(z3.And(in_t, t2 > t, t2 < L), E.as_int(E.seq_elem(res, t2)) > st))
+            ck.execute(mk, post=post, allow_raise=lambda *a: None)
+            yield ck
+    for qual in ('rsatoolbox.util.data_utils.extract_dict', DU + 'subset_descriptor'):
+        ck = FuncCheck(E, run, 'C10', qual, 'indices=sequence')
+        hold = {}
+
+        def mk(E):
+            a, b = E.sym_list('col_a', etag='scalar'), E.sym_list('col_b', etag='scalar')
+            idx = E.lib['numpy.random.randint'](E, 0, SV(a.length, 'int'), size=SV(z3.Int('n_idx'), 'int'))   # ANY in-range indices
+            idx.kind = 'list'
+            hold.update(a=a, b=b, idx=idx)
+            return [DictV({'a': a, 'b': b}), idx], {}, [a.length == b.length, z3.Int('n_idx') >= 0]
+
+        def post(ck, E, args, kw, p):
+            res = p.value
+            ok = isinstance(res, DictV) and set(res.d) == {'a', 'b'}
+            ck.ensure('post/every-key-is-kept', z3.BoolVal(ok), note=repr(res))
+            if not ok:
+                return
+            idx = hold['idx']
+            t = z3.Int(fresh_name('t'))
+            in_t = z3.And(t >= 0, t < idx.zlen())
+            for key in ('a', 'b'):
+                col = E.as_seq(res.d[key])
+                ck.ensure(f'post/column-{key}-has-one-entry-per-index', col.zlen() == idx.zlen())
+                ck.ensure(f'post/column-{key}-entry-t-is-the-source-entry-at-index-t',
+                          z3.Implies(in_t, E.veq(E.seq_elem(col, t), E.seq_elem(hold[key], E.as_int(E.seq_elem(idx, t))))))
+            # the source dictionary is not modified (frame)
+            src = args[0]
+            ck.ensure('frame/source-dictionary-unchanged', z3.BoolVal(src.d['a'] is hold['a'] and src.d['b'] is hold['b']))
+        ck.execute(mk, post=post, allow_raise=lambda *a: None)
+        yield ck
+
+
+def check_subset(run, E):
+    """RDMs.subset(by, value): exactly the RDMs whose descriptor is a requested value, each once, in source order; the
+    dissimilarity rows and EVERY rdm descriptor gathered by that same index sequence; other fields are the source's"""
+    from contracts.C09 import _self_rdms
+    E.inline |= {DU + 'bool_index', DU + 'num_index', 'rsatoolbox.util.data_utils.extract_dict'}
+    for case in ('scalar', 'list'):
+        ck = FuncCheck(E, run, 'C10', 'rsatoolbox.rdm.rdms.RDMs.subset', f'value={case}')
+        hold = {}
+
+        def mk(E, case=case):
+            self_, desc, idx = _self_rdms(E)
+            value = E.sym_list('value', etag='scalar') if case == 'list' else E.sym_val('value', tag='scalar')
+            hold.update(desc=desc, idx=idx)
+            return [self_, 'k', value], {}, [idx.length == desc.length]
+
+        def post(ck, E, args, kw, p, case=case):
+            self_, _, value = args
+            desc, idx = hold['desc'], hold['idx']
+            n = desc.length
+            res = p.value
+            d = res.fields.get('dissimilarities') if isinstance(res, Obj) else None
+            ok = (isinstance(d, SV) and d.app is not None and d.app[0] == 'getitem' and d.app[1][0] is self_.fields['dissimilarities']
+                  and isinstance(d.app[1][1], tuple) and len(d.app[1][1]) == 2 and isinstance(d.app[1][1][0], SeqV)
+                  and d.app[1][1][1] == slice(None, None, None))
+            ck.ensure('post/dissimilarities-are-rows-of-the-source-selected-by-an-index-sequence', z3.BoolVal(bool(ok)), structure=True,
+                      note=f'dissimilarities: {d!r}')
+            if not ok:
+                return
+            sel = d.app[1][1][0]
+            L = sel.zlen()
+            t = z3.Int(fresh_name('t'))
+            in_t = z3.And(t >= 0, t < L)
+            st = E.as_int(E.seq_elem(sel, t))
+            ck.ensure('post/every-kept-rdm-has-a-requested-value',
+                      z3.Implies(in_t, z3.And(st >= 0, st < n, _in_value(E, E.toV(E.seq_elem(desc, st)), value, case))))
+            j = z3.Int(fresh_name('j'))
+            pj = sel.inv(j) if sel.inv is not None else None
+            ck.ensure('post/every-rdm-with-a-requested-value-is-kept', z3.BoolVal(False) if pj is None else z3.Implies(
+                z3.And(j >= 0, j < n, _in_value(E, E.toV(E.seq_elem(desc, j)), value, case)),
+                z3.And(pj >= 0, pj < L, E.as_int(E.seq_elem(sel, pj)) == j)))
+            t2 = z3.Int(fresh_name('t'))
+            ck.ensure('post/each-once-in-source-order', z3.Implies(z3.And(in_t, t2 > t, t2 < L), E.as_int(E.seq_elem(sel, t2)) > st))
+            rd = res.fields.get('rdm_descriptors')
+            okd = isinstance(rd, DictV) and set(rd.d) == {'index', 'k'}
+            ck.ensure('post/all-descriptor-keys-are-kept', z3.BoolVal(bool(okd)))
+            if okd:
+                for key, src in (('index', idx), ('k', desc)):
+                    col = E.as_seq(rd.d[key])
+                    ck.ensure(f'post/descriptor-{key}-has-one-entry-per-kept-rdm', col.zlen() == L)
+                    ck.ensure(f'post/descriptor-{key}-is-gathered-by-the-same-indices',
+                              z3.Implies(in_t, E.veq(E.seq_elem(col, t), E.seq_elem(src, st))))
+            for f in ('descriptors', 'pattern_descriptors', 'dissimilarity_measure'):
+                ck.ensure_eq(f'post/{f}-are-the-sources', res.fields.get(f), self_.fields[f])
+        ck.execute(mk, post=post, allow_raise=lambda *a: None)
+        yield ck
+
+
 def run(run):
     fails = lemmas(run)
     E = new_engine(run)
     for ck in check_size_recovery(run, E):
+        fails += ck.failed
+    for ck in check_selection_helpers(run, E):
+        fails += ck.failed
+    for ck in check_subset(run, E):
         fails += ck.failed
     finish_engine(E, run)
     finish(run, fails, 'C10')
